@@ -576,4 +576,54 @@ func c12Locations(ctx *Ctx, sc c12Scenario, transitions, validated *int) {
 		}
 		os.RemoveAll(l.dir)
 	}
+	// a repeated run into the same place: every output file of the first run exists already and holds a longer, stale text
+	// (what is left on disk by an earlier run must not show in the result); only for scenarios that write files
+	{
+		l := locs[0]
+		os.RemoveAll(l.dir)
+		genlab.Materialise(l.dir, sc.files)
+		os.MkdirAll(filepath.Join(l.dir, "updir"), 0o755)
+		args := append(append([]string{}, sc.cfg.Flags()...), sc.args...)
+		first := genlab.RunCLI(bin, l.dir, args, "", 60*time.Second)
+		outs := 0
+		for _, n := range genlab.TreeNames(first.Files) {
+			in := n == "updir"
+			for _, f := range sc.files {
+				if f.Path == n {
+					in = true
+				}
+			}
+			if !in {
+				outs++
+				os.WriteFile(filepath.Join(l.dir, n), []byte(first.Files[n]+strings.Repeat("// stale line of an earlier, longer output\n", 200)), 0o644)
+			}
+		}
+		if outs > 0 && first.Exit == 0 {
+			r := genlab.RunCLI(bin, l.dir, args, "", 60*time.Second)
+			var sb strings.Builder
+			fmt.Fprintf(&sb, "exit=%d\nstdout:\n%s\n", r.Exit, r.Stdout)
+			for _, n := range genlab.TreeNames(r.Files) {
+				in := false
+				for _, f := range sc.files {
+					if f.Path == n {
+						in = true
+					}
+				}
+				if !in {
+					sb.WriteString("=== " + n + "\n" + r.Files[n])
+				}
+			}
+			got := strings.ReplaceAll(sb.String(), l.dir, "$DIR")
+			*transitions++
+			*validated++
+			ctx.Run.Eval(fmt.Sprintf("loc|%s|rerun-in-place", sc.name), true)
+			ctx.Run.Count("separate_process_runs", 1)
+			ctx.Run.Count("reruns_over_longer_stale_outputs", 1)
+			if got != ref {
+				ctx.Run.Violation("rerun-in-place", fmt.Sprintf("C12/%s: a second run over its own, longer, earlier outputs (arguments %q) differs from a run into an empty directory: %s", sc.name, args, firstDiffLine(ref, got)),
+					map[string]any{"kind": "cli", "files": sc.files, "args": args, "dir": l.dir, "reference": ref, "result": got})
+			}
+		}
+		os.RemoveAll(l.dir)
+	}
 }
